@@ -12,7 +12,7 @@ import (
 const NTemplates = 14
 
 // NFileTemplates file-passing skeletons follow the NTemplates dataflow ones.
-const NFileTemplates = 8
+const NFileTemplates = 10
 
 func ref(call string, path ...string) *Exp { return &Exp{Kind: ERefCall, Id: call, Path: path} }
 func self(id string, path ...string) *Exp  { return &Exp{Kind: ERefSelf, Id: id, Path: path} }
@@ -403,6 +403,55 @@ func Template(kind int, seed int64, cfg *Config) *Program {
 				{Callee: "MK", Map: true, Volatile: g.pct(50), Binds: []Binding{{Id: "x", Exp: ref("GENI", "arr"), Split: true}}},
 			}}
 		switch fk {
+		case 9:
+			// fk 4 with forks made at run time: the mapped pipeline (and a
+			// directly mapped producer/consumer pair) is split over GENI's output;
+			// the checks make MK2's collections empty in some forks only
+			mk2 := src(&Stage{Name: "MK2", Ins: []Param{{Name: "x", Type: TInt}}, Outs: []Param{{Name: "om", Type: TMapOf(TFile)}, {Name: "af", Type: ArrayOf(TFile)}, {Name: "om2", Type: TMapOf(TFile)}, {Name: "n", Type: TInt}}})
+			cons2 := src(&Stage{Name: "CONS2", Ins: []Param{{Name: "om", Type: TMapOf(TFile)}, {Name: "af", Type: ArrayOf(TFile)}, {Name: "om2", Type: TMapOf(TFile)}}, Outs: []Param{{Name: "y", Type: TInt}}})
+			cons3 := src(&Stage{Name: "CONS3", Ins: []Param{{Name: "af", Type: ArrayOf(TFile)}}, Outs: []Param{{Name: "y", Type: TInt}}})
+			p.Stages = append(p.Stages, mk2, cons2, cons3)
+			inner := &Pipeline{Name: "INNERF", Ins: []Param{{Name: "x", Type: TInt}}, Outs: []Param{{Name: "y", Type: TInt}},
+				Calls: []*Call{
+					{Callee: "MK2", Volatile: true, Binds: []Binding{{Id: "x", Exp: self("x")}}},
+					{Callee: "CONS2", Binds: []Binding{{Id: "om", Exp: ref("MK2", "om")}, {Id: "af", Exp: ref("MK2", "af")}, {Id: "om2", Exp: ref("MK2", "om2")}}},
+				},
+				Ret: []Binding{{Id: "y", Exp: ref("CONS2", "y")}}}
+			top.Calls = []*Call{top.Calls[0],
+				{Callee: "INNERF", Map: true, Binds: []Binding{{Id: "x", Exp: ref("GENI", "arr"), Split: true}}},
+				{Callee: "MK2", Alias: "MKD", Map: true, Volatile: true, Binds: []Binding{{Id: "x", Exp: ref("GENI", "arr"), Split: true}}},
+				{Callee: "CONS3", Alias: "CONSD", Map: true, Binds: []Binding{{Id: "af", Exp: ref("MKD", "af"), Split: true}}},
+			}
+			top.Outs = []Param{{Name: "y", Type: wrap(TInt)}, {Name: "yd", Type: wrap(TInt)}}
+			top.Ret = []Binding{{Id: "y", Exp: ref("INNERF", "y")}, {Id: "yd", Exp: ref("CONSD", "y")}}
+			p.Stages = append(p.Stages[:1], p.Stages[3:]...) // MK, CONS unused here
+			p.Pipelines = []*Pipeline{inner}
+		case 8:
+			// explicit output file names at top level and in a struct; with
+			// cfg.POutClash some of them equal a sibling's default file name,
+			// which the compiler must reject
+			p.FileTypes = append(p.FileTypes, "txt")
+			p.FileTypeOf = append(p.FileTypeOf, 0)
+			ttxt := &Type{Kind: KUserFile, Name: "txt"}
+			name := func(clash, other string) string {
+				if g.pct(cfg.POutClash) {
+					return clash
+				}
+				return other
+			}
+			fsn := &Struct{Name: "FSN", Fields: []Param{{Name: "f1", Type: TFile}, {Name: "f2", Type: ttxt, Help: "h", OutName: name("f1", "f2x.out")}, {Name: "fl", Type: ArrayOf(TFile)}}}
+			p.Structs = append(p.Structs, fsn)
+			tfsn := &Type{Kind: KStruct, Name: "FSN"}
+			mkn := src(&Stage{Name: "MKN", Ins: []Param{{Name: "x", Type: TInt}}, Outs: []Param{{Name: "a", Type: TFile}, {Name: "b", Type: TFile}, {Name: "t", Type: ttxt}, {Name: "u", Type: TFile}, {Name: "s", Type: tfsn}}})
+			p.Stages = []*Stage{mkn}
+			top.Calls = []*Call{{Callee: "MKN", Binds: []Binding{{Id: "x", Exp: lit(s1)}}}}
+			top.Outs = []Param{{Name: "a", Type: TFile}, {Name: "b2", Type: TFile, Help: "h", OutName: name("a", "b2_named.dat")},
+				{Name: "t", Type: ttxt}, {Name: "u", Type: TFile, Help: "h", OutName: name("t.txt", "u.bin")}, {Name: "s", Type: tfsn}}
+			if g.pct(50) {
+				// the explicitly named one first
+				top.Outs[0], top.Outs[1] = top.Outs[1], top.Outs[0]
+			}
+			top.Ret = []Binding{{Id: "a", Exp: ref("MKN", "a")}, {Id: "b2", Exp: ref("MKN", "b")}, {Id: "t", Exp: ref("MKN", "t")}, {Id: "u", Exp: ref("MKN", "u")}, {Id: "s", Exp: ref("MKN", "s")}}
 		case 7:
 			// one volatile producer, two consumers of its files: the checks give
 			// CKILL a transient failure (its monitor is killed on the first
